@@ -133,8 +133,12 @@ def renderTz : Rule → List Nat
 def NameOk (n : List Nat) : Prop := 3 ≤ n.length ∧ n.length ≤ 7 ∧ n.all nameChar = true
 instance (n : List Nat) : Decidable (NameOk n) := by unfold NameOk; infer_instance
 
+/-- a local time type a conforming writer may state in a TZ string: the flag as given, a legal
+designation, and an offset STRICTLY within 24 hours of UTC (`±23:59:59`; after the repair of finding
+F32 an offset of `24:00:00` or more — which the POSIX field ranges `hh = 0…24` can spell — is refused
+when the `LocalTimeType` is constructed) -/
 def LttOk (t : Ltt) (dst : Bool) : Prop :=
-  t.dst = dst ∧ (match t.name with | some n => NameOk n | none => False) ∧ -89999 ≤ t.off ∧ t.off ≤ 89999
+  t.dst = dst ∧ (match t.name with | some n => NameOk n | none => False) ∧ -86400 < t.off ∧ t.off < 86400
 instance (t : Ltt) (dst : Bool) : Decidable (LttOk t dst) := by
   unfold LttOk; cases t.name <;> infer_instance
 
@@ -165,7 +169,7 @@ def SortedStrict : List Transition → Prop
 
 def ZoneValid (z : Zone) : Prop :=
   z.types ≠ [] ∧ SortedStrict z.transitions ∧ (∀ t ∈ z.transitions, t.idx < z.types.length)
-    ∧ (∀ t ∈ z.types, t.off ≠ I32_MIN ∧ ∀ n, t.name = some n → NameOk n)
+    ∧ (∀ t ∈ z.types, (-86400 < t.off ∧ t.off < 86400) ∧ ∀ n, t.name = some n → NameOk n)
 
 /-! ### the layout a header announces -/
 /-- the `k`-th 32-bit count of the header at the start of `bytes` (RFC 8536 order: `isutcnt`,
